@@ -29,6 +29,11 @@ func c16(c *Ctx) {
 	c16set(c)
 	c16ring(c)
 	c16deleters(c)
+	// R10/R11 (round 8): the cache's expiry is the timing wheel's doing and its Take is the single flight's: their
+	// rules are part of this property's check as well (a wheel that forgets a live key's timer deletes a newer value;
+	// a flight that keeps a finished call answers every later Take with the old error)
+	runShared(c, "C12.", "C16.R10·C12.", c12)
+	runShared(c, "C07.", "C16.R11·C07.", c07)
 }
 
 // countPred evaluates a boolean sym that only compares the load of field `field` with integer constants,
